@@ -78,3 +78,10 @@ claim("C09", "typestate transitions as must-pass / exclusivity rules under the l
       "returns the block and reclaim removes index entries, then completes cleaning, then releases; FIFO queue ends; re-insertions keep hash, "
       "length and sequence and are skipped for keys that left the index; only blocks other than the batch's last are finished (affine form of "
       "the index test). Liveness beyond re-arming is not decided.", "DESIGN.md §4 C09")
+claim("C07", "codec extraction (writer/reader tables), affine normal forms with memory-aware store resolution, sibling agreement, comparison tables",
+      "Decides that every on-disk record's writer and reader agree on order, width and byte range (entry header, blob index entry, blob index "
+      "seal/read, tombstone); that flusher and scanner compute addresses as blob start + index.offset with len/sequence from the index; that "
+      "alignment is asserted and buffer / scanner advance by aligned lengths; and — as affine forms over the splitter context — that split_blob "
+      "and seal_blob advance the blob start by blob start + part offset + part size, reset or continue the part offset, emit parts at the entry "
+      "state, record entry offsets as part offset + bytes so far, and start a new block exactly when the entry end exceeds the block size. "
+      "Non-overlap over all batch sequences is not decided.", "DESIGN.md §4 C07")
